@@ -46,13 +46,14 @@ type scenario struct {
 	req    int
 	events int  // events the producer sends
 	bad    int  // index of an event whose payload makes the field fail (-1 none)
+	nilAt  int  // 1 + index of an event whose payload is nil (0 none)
 	closes bool // producer closes the source after the events
 	cons   int
 	cancel bool
 }
 
 func (s scenario) String() string {
-	return fmt.Sprintf("request=%s events=%d failing_event=%d producer_closes=%v consumer=%s cancel=%v", reqNames[s.req], s.events, s.bad, s.closes, consNames[s.cons], s.cancel)
+	return fmt.Sprintf("request=%s events=%d failing_event=%d nil_event=%d producer_closes=%v consumer=%s cancel=%v", reqNames[s.req], s.events, s.bad, s.nilAt-1, s.closes, consNames[s.cons], s.cancel)
 }
 
 type env struct {
@@ -81,8 +82,9 @@ func buildSchema(e *env, sc scenario) (graphql.Schema, error) {
 		"ev": &graphql.Field{Type: ev,
 			Resolve: func(p graphql.ResolveParams) (interface{}, error) {
 				m, _ := p.Source.(map[string]interface{})
-				if m == nil {
-					return nil, errors.New("no payload")
+				if len(m) == 0 {
+					// a nil payload is an event like any other
+					return map[string]interface{}{"v": "nil-event"}, nil
 				}
 				if m["bad"] == true {
 					return nil, errors.New("bad event")
@@ -169,6 +171,10 @@ func execute(x *explore.X, sc scenario, horizon int) outcome {
 	if sc.req == reqValid {
 		vsched.Go("producer", func() {
 			for i := 0; i < sc.events; i++ {
+				if i == sc.nilAt-1 {
+					vsched.Send("producer", e.src, interface{}(nil))
+					continue
+				}
 				vsched.Send("producer", e.src, interface{}(map[string]interface{}{"v": fmt.Sprintf("e%d", i), "bad": i == sc.bad}))
 			}
 			if sc.closes {
@@ -224,7 +230,11 @@ func execute(x *explore.X, sc scenario, horizon int) outcome {
 			if sc.cancel && g == ctxErrResult {
 				continue // executing an event under a cancelled context yields the context error (C16)
 			}
-			if want := expectedEvent(i, i == sc.bad); g != want {
+			want := expectedEvent(i, i == sc.bad)
+			if i == sc.nilAt-1 {
+				want = `{"data":{"ev":{"v":"nil-event"}}}`
+			}
+			if g != want {
 				set(fmt.Sprintf("result %d is %s, expected %s", i, g, want))
 				break
 			}
@@ -288,6 +298,9 @@ func scenarios(thorough bool) []scenario {
 	// a failing payload in the middle
 	out = append(out, scenario{req: reqValid, events: 2, bad: 0, closes: true, cons: consAll, cancel: false})
 	out = append(out, scenario{req: reqValid, events: 2, bad: 1, closes: true, cons: consAll, cancel: true})
+	// a nil payload is not the end of the stream
+	out = append(out, scenario{req: reqValid, events: 2, bad: -1, nilAt: 1, closes: true, cons: consAll, cancel: false})
+	out = append(out, scenario{req: reqValid, events: 2, bad: -1, nilAt: 2, closes: false, cons: consAll, cancel: true})
 	for req := reqSyntax; req < nReq; req++ {
 		for cons := consAll; cons <= consNone; cons += 2 {
 			for _, cancel := range []bool{false, true} {
